@@ -224,8 +224,12 @@ struct Codec
       auto const len = static_cast<uint32_t>(arg.length());
       std::memcpy(buffer, &len, sizeof(len));
       buffer += sizeof(len);
-      std::memcpy(buffer, arg.data(), len);
-      buffer += len;
+      if (len != 0)
+      {
+        // data() of a default constructed std::string_view is a nullptr, which must not be passed to memcpy
+        std::memcpy(buffer, arg.data(), len);
+        buffer += len;
+      }
     }
     else
     {
